@@ -121,6 +121,49 @@ def check_delete(arg):
     return fails, 1 if removed else 0
 
 
+def check_members_change(arg):
+    """the same entry text with other group members (another ACL in the same process, or the members edited in place):
+    the decision follows the members, not the text"""
+    import cisco_acl
+    variant = arg
+    lines = ["permit ip object-group G1 any", "permit ip host 10.0.0.5 any", "deny ip any any"]
+    cover, other = ["10.0.0.0 0.0.0.255"], ["10.9.0.0 0.0.0.255"]
+    fails = []
+
+    def build(members):
+        acl = cisco_acl.Acl("\n".join(["ip access-list extended A"] + lines), platform="ios")
+        for o in acl.items:
+            if isinstance(o, cisco_acl.Ace) and o.srcaddr.addrgroup:
+                o.srcaddr.items = [cisco_acl.Address(m, platform="ios") for m in members]
+        return acl
+
+    def kept(acl):
+        return "permit ip host 10.0.0.5 any" in [o.line for o in acl.items]
+
+    def bad(what):
+        fails.append(dict(key=f"bounded/Acl.delete_shadow:members-change:{variant}", what=what, inputs=dict(lines=lines, variant=variant),
+                          cmd=("import sys; sys.path.insert(0, 'props'); import C04\n"
+                               f"fails, _ = C04.check_members_change({arg!r})\nprint([f['what'] for f in fails]); sys.exit(1 if fails else 0)\n")))
+    if variant in ("cover-then-other", "other-then-cover"):
+        seq = [(cover, False), (other, True)] if variant == "cover-then-other" else [(other, True), (cover, False)]
+        for members, want_kept in seq:
+            acl = build(members)
+            acl.shading()
+            acl.delete_shadow()
+            if kept(acl) != want_kept:
+                bad(f"G1 = {members}: `permit ip host 10.0.0.5 any` was {'kept' if kept(acl) else 'removed'}, but G1 {'does not cover' if want_kept else 'covers'} 10.0.0.5")
+    else:
+        acl = build(cover)
+        acl.shading()
+        for o in acl.items:
+            if isinstance(o, cisco_acl.Ace) and o.srcaddr.addrgroup:
+                o.srcaddr.items = [cisco_acl.Address(m, platform="ios") for m in other]
+        acl.delete_shadow()
+        if not kept(acl):
+            bad("after the members of G1 were changed in place to a group that does not cover 10.0.0.5, delete_shadow still removed `permit ip host 10.0.0.5 any`")
+    return fails, 1
+
+
 def sc_strip(line):
     toks = line.split()
     return " ".join(toks[1:] if toks and toks[0].isdigit() else toks)
@@ -153,6 +196,16 @@ def main(chk):
                     f"all ACLs of <= {3 if chk.tier == 'quick' else 4} items over the {len(C11.ALPHABET)}-kind alphabet (+ slice of length 4), flat / numbered / grouped by remark prefix; "
                     f"{len(gcases)} ACLs of 2..3 items over {len(GALPHA)} entries with address groups on both sides",
                     viol, time.time() - t0, [list(acls[80])], exhaustive=True)
+    t0 = time.time()
+    mcases = ["cover-then-other", "other-then-cover", "edited-in-place"]
+    res = pmap(check_members_change, mcases)
+    viol = 0
+    for fails, _ in res:
+        for f in fails:
+            viol += 1
+            chk.finding(f["key"], f["what"], inputs=f["inputs"], cmd=f["cmd"], key=f["key"])
+    chk.add_bounded("delete_shadow follows the members of a referenced group, not the entry text (two ACLs in one process; members edited in place)",
+                    len(mcases), len(mcases), "3 histories", viol, time.time() - t0, mcases[:1], exhaustive=True)
     chk.assumptions += ["coverage of a removed entry is decided with the independent reader + set algebra on the rendered lines",
                         "L4.firstmatch is stated for an arbitrary matching relation; its hypothesis is the bounded `uncovered` clause plus C03's proved soundness"]
     return chk.finish("other",
